@@ -143,6 +143,21 @@ func gather(w *World, p string) *checkRun {
 			run.items = append(run.items, workItem{fr, o})
 		}
 	}
+	for _, pr := range w.subtypePairs() {
+		if !contractServes(pr[0], p) {
+			continue
+		}
+		fr := w.verifySubtype(pr[0], pr[1])
+		run.results = append(run.results, fr)
+		if fr.Outside != "" {
+			run.outside = append(run.outside, fr.Fn+": "+fr.Outside)
+		}
+		for _, o := range fr.Obls {
+			if hasProp(o.Props, p) {
+				run.items = append(run.items, workItem{fr, o})
+			}
+		}
+	}
 	w.extraObligations(run)
 	return run
 }
